@@ -99,6 +99,9 @@ u2(["floor_divide"], v1="pos2", v2="pos", out="D")
 u2(["arctan2"], out="A")
 u2(["logaddexp", "logaddexp2"], d1="D", d2="D", v1="unit", v2="pos", out="D")
 fn("power", {"x": ("L", "pos")}, lambda f, a: f(a["x"], 2), "L**2", kind="ufunc")
+VALUES["pexp"] = [0.5, 2.0, 1.0]
+fn("power", {"x": ("D", "pos"), "p": ("D", "pexp")}, lambda f, a: f(a["x"], a["p"]), "D", kind="ufunc")  # array exponent: only a dimensionless base has a meaning
+fn("float_power", {"x": ("D", "pos"), "p": ("D", "pexp")}, lambda f, a: f(a["x"], a["p"]), "D", kind="ufunc")
 fn("power", {"x": ("L", "pos"), "p": ("D", "s")}, lambda f, a: f(a["x"], a["p"]), "L**3", kind="ufunc", no_alt=True)  # the implied unit depends on the VALUE of p
 fn("ldexp", {"x": ("L", "v1")}, lambda f, a: f(a["x"], 2), "L", kind="ufunc")
 
